@@ -3,6 +3,7 @@ package hx
 import (
 	"context"
 	"fmt"
+	"strings"
 	"time"
 
 	"github.com/PowerDNS/lightningstream/snapshot"
@@ -80,6 +81,11 @@ func cmdOnlyOnce(args []string) error {
 		if err != nil {
 			return err
 		}
+		// goroutines left over from earlier scenarios (cancelled fleets: known finding F8) are not this scenario's
+		before := map[string]bool{}
+		for _, g := range goroutinesIn("lightningstream/syncer/receiver", "lightningstream/syncer/cleaner", "lightningstream/syncer/sweeper") {
+			before[strings.SplitN(g, " [", 2)[0]] = true
+		}
 		ctx, cancel := context.WithTimeout(context.Background(), 20*time.Second)
 		done := make(chan error, 1)
 		go func() { done <- s.Sync(ctx) }()
@@ -112,9 +118,29 @@ func cmdOnlyOnce(args []string) error {
 				finished = true
 			}
 		}
+		desc := map[string]interface{}{"scenario": sc, "native": native}
+		if syncErr == nil {
+			// C17: Sync returned by itself while the caller's context is still open - nothing it started may stay behind
+			var left []string
+			for i := 0; i < 40; i++ {
+				left = nil
+				for _, g := range goroutinesIn("lightningstream/syncer/receiver", "lightningstream/syncer/cleaner", "lightningstream/syncer/sweeper") {
+					if !before[strings.SplitN(g, " [", 2)[0]] {
+						left = append(left, g)
+					}
+				}
+				if len(left) == 0 {
+					break
+				}
+				time.Sleep(25 * time.Millisecond)
+			}
+			if len(left) > 0 {
+				R.Bad(desc, map[string]interface{}{"prop": "C17", "class": "goroutine-left-after-return"},
+					"Sync returned (run-once) with the caller's context still open, and %d goroutine(s) it started are still there: %.600v", len(left), left)
+			}
+		}
 		cancel()
 		R.Add(1, 1, 1)
-		desc := map[string]interface{}{"scenario": sc, "native": native}
 		if early {
 			R.Bad(desc, sig("exit-too-early"), "run-once mode ended while the newest snapshot of instance b was still being downloaded")
 		}
